@@ -445,6 +445,31 @@ def eraseList : List Node → List Tree
   | n :: ns => n.erase :: eraseList ns
 end
 
+/-! ## holding on to a sub-element -/
+
+mutual
+/-- the nodes of a tree in document order (the node itself first) -/
+def preorder : Node → List Node
+  | .elem i p t a cs => .elem i p t a cs :: preorderL cs
+  | .text i p t => [.text i p t]
+def preorderL : List Node → List Node
+  | [] => []
+  | n :: r => preorder n ++ preorderL r
+end
+
+/-- a handle to the node `c` of a decoded tree after every other handle to that tree has been dropped:
+    `~_Xml` of the element that contained `c` clears `c`'s parent pointer (commit c581d77), the subtree
+    below `c` is untouched -/
+def survivor (c : Node) : Node := c.clearParent
+
+/-- `Xml r = decode(x); Xml c = <k-th node of r in document order>; r = Xml();` then `c` -/
+def pickSurvivor (r : Result) (k : Nat) : Option Node :=
+  match r with
+  | .node n =>
+    let l := preorder n
+    (l[k % l.length]?).map survivor
+  | _ => none
+
 /-- `!e` for the returned object: a text node or an element with an empty tag counts as null -/
 def Result.isNull : Result → Bool
   | .node (.elem _ _ tag _ _) => tag.isEmpty
